@@ -181,9 +181,41 @@ def nontrivial(c: Case) -> bool:
     return c.obs is not None and c.obs[0] != "OAssert"
 
 
+def one_shot_configuration() -> Optional[dict]:
+    """Configuration handed over as a one-shot iterable (zip, a generator, an iterator) - which the constructors
+    accept - serves both entry points: sync and async agree on every input."""
+    from koda_validate import IntValidator, Invalid, RecordValidator, StringValidator, Valid
+    names, vals = ["a", "b"], [IntValidator(), StringValidator()]
+    forms = [("zip", lambda: zip(names, vals)), ("generator", lambda: ((n, v) for n, v in zip(names, vals))),
+             ("iterator", lambda: iter(list(zip(names, vals)))), ("tuple", lambda: tuple(zip(names, vals)))]
+    for label, mk in forms:
+        try:
+            v = RecordValidator(into=lambda a, b: (a, b), keys=mk())
+        except Exception:  # noqa - a constructor that refuses the form is not this property's business
+            continue
+        for x in ({"a": 1, "b": "s"}, {"a": "no", "b": "s"}, {"a": 1}, {}, 5):
+            try:
+                rs = v(x)
+            except Exception as e:  # noqa
+                rs = e
+            try:
+                ra = drive(v.validate_async(x))
+            except Exception as e:  # noqa
+                ra = e
+            same = (type(rs) is type(ra)) and ((type(rs) is Valid and rs.val == ra.val) or (type(rs) is Invalid and type(rs.err_type) is type(ra.err_type)
+                                                                                            and repr(rs.err_type) == repr(ra.err_type)))
+            if not same and not (isinstance(rs, AssertionError)):
+                return {"signature": "C06:one-shot-configuration",
+                        "what": f"RecordValidator built with keys given as a {label}: on {x!r} the sync call gives {rs!r}, the awaited call {ra!r}"}
+    return None
+
+
 def run(tier: str, rng: random.Random, proof_ok: bool) -> dict:
     from .hist import odd_equality_violation
     rep = run_families("C06", cases(tier, rng), rng, oracle, nontrivial)
+    osc = one_shot_configuration()
+    if osc:
+        rep["violations"].append({"kind": "oracle", **osc, "replay_case": {"one_shot_configuration": True}})
     oe = odd_equality_violation("C06")     # both entry points, on values whose __eq__ is unusual
     if oe:
         rep["violations"].append(oe)
@@ -194,5 +226,9 @@ def replay(path: str) -> int:
     import json
     from .hist import replay_special
     rc = json.load(open(path)).get("replay_case")
+    if isinstance(rc, dict) and rc.get("one_shot_configuration"):
+        r_ = one_shot_configuration()
+        print("property violated: " + r_["what"] if r_ else "property holds for configuration given as one-shot iterables")
+        return 1 if r_ else 0
     r = replay_special(rc, "C06") if isinstance(rc, dict) else None
     return r if r is not None else generic_replay(path, oracle)
